@@ -92,6 +92,7 @@ pub open spec fn stsd_at(d: Seq<u8>, q: int, b: StsdBox) -> bool {
     &&& (b.mp4a matches Some(x) ==> mp4a_at(d, child_q(d, p), child_size(d, p), x))
     &&& (b.vp09 matches Some(x) ==> vp09_at(d, child_q(d, p), x))
     &&& (b.hev1 matches Some(x) ==> hev1_at(d, child_q(d, p), x))
+    &&& (b.tx3g matches Some(x) ==> tx3g_at(d, child_q(d, p), x))
 }
 
 // ---- avcC, encode side: reference bytes (ISO/IEC 14496-15 5.3.3.1; reserved bits are ones)
@@ -177,4 +178,13 @@ pub open spec fn hev1_at(d: Seq<u8>, q: int, b: Hev1Box) -> bool {
     &&& b.horizresolution.0.numer == be32(d, q + 28) && b.vertresolution.0.numer == be32(d, q + 32)
     &&& b.frame_count == be16(d, q + 40) && b.depth == be16(d, q + 74)
     &&& child_name(d, q + 78) == BoxType::HvcCBox && hvcc_head_at(d, child_q(d, q + 78), b.hvcc)
+}
+
+/// 3GPP timed text sample entry 'tx3g' (3GPP TS 26.245 5.16) whose body starts at q
+pub open spec fn tx3g_at(d: Seq<u8>, q: int, b: Tx3gBox) -> bool {
+    &&& b.data_reference_index == be16(d, q + 6) && b.display_flags == be32(d, q + 8)
+    &&& b.horizontal_justification == d[q + 12] as i8 && b.vertical_justification == d[q + 13] as i8
+    &&& b.bg_color_rgba.red == d[q + 14] && b.bg_color_rgba.green == d[q + 15] && b.bg_color_rgba.blue == d[q + 16] && b.bg_color_rgba.alpha == d[q + 17]
+    &&& forall|i: int| 0 <= i < 4 ==> #[trigger] b.box_record[i] == be16(d, q + 18 + 2 * i) as i16
+    &&& forall|i: int| 0 <= i < 12 ==> #[trigger] b.style_record[i] == d[q + 26 + i]
 }
